@@ -13,7 +13,7 @@
    check); encoding/json and encoding/csv are modelled on the alphabet the analysis produces. *)
 From Coq Require Import List ZArith Bool String Permutation.
 From NP Require Import IntervalSet ConnSet ConnSetProofs World Build Connlist Diff Format SortGeneric FormatProofs DotProofs DiffDot DiffDotProofs XFormat XFormatProofs StrInj ConnInj RowInj
-     Eval EvalProofs PartitionTiles ModelPrintable.
+     Eval EvalProofs PartitionTiles ModelPrintable DiffInj.
 Import ListNotations.
 
 Theorem C09_rows_are_exactly_the_entries es : Permutation (rowsort (map row_of es)) (map row_of es).
@@ -127,6 +127,23 @@ Theorem C09_equal_output_means_equal_report w1 w2 f1 f2 h1 h2 r1 r2 :
   Permutation (lr_entries r1) (lr_entries r2).
 Proof. exact (model_reports_print_differently w1 w2 f1 f2 h1 h2 r1 r2). Qed.
 Print Assumptions C09_equal_output_means_equal_report.
+
+(* diff, md: the output determines the added / removed / changed entries (unchanged ones are not printed), connections,
+   new/lost flags and all; [dentry_ok]: printable peers without '|', two different ends, canonical sets, the absent side of
+   an added / removed entry is the empty set - decidable ([dentry_printableb]) and evaluated on every implementation result *)
+Theorem C09_diff_md_determines_the_diff d d' :
+  Forall dentry_ok d -> Forall dentry_ok d' -> diff_md d = diff_md d' ->
+  Permutation (filter changedb d) (filter changedb d').
+Proof. exact (diff_md_inj d d'). Qed.
+Print Assumptions C09_diff_md_determines_the_diff.
+
+Theorem C09_diff_row_determines_the_entry e e' : dentry_ok e -> dentry_ok e' -> drow_of e = drow_of e' -> e = e'.
+Proof. exact (drow_of_inj e e'). Qed.
+Print Assumptions C09_diff_row_determines_the_entry.
+
+Theorem C09_diff_printable_checker_sound d : forallb dentry_printableb d = true -> Forall dentry_ok d.
+Proof. exact (dentries_printable d). Qed.
+Print Assumptions C09_diff_printable_checker_sound.
 
 (* non-vacuity: a report with workloads, an address range, a multi-protocol set and the full set is printable *)
 Example C09_printable_example :
